@@ -100,6 +100,9 @@ def h_transfer(ctx, M, K):
         done = sysm.run(14 + 10 * K + 2 * M)
     if sysm.exceptions:
         name = type(sysm.exceptions[0][1].exc).__name__
+        if name == "HostAccess" or w.host_access:
+            verdict(ctx, w, "transfer")
+            ctx.prop("no_host_file_access", False, lambda: {"sig": f"host access attempted: {name}"})
         if name in ("SourceFileDoesNotExist", "FileNotFoundError"):
             # the handler looked for the file on the host instead of asking the filestore
             ctx.prop("no_host_file_access", False, lambda: {"sig": f"handler fails without host file: {name}"})
@@ -119,7 +122,8 @@ def h_relative_names(ctx):
     x = ctx.int("x", 0, 2**16)
     w.witness = x
     mode = ctx.pick("mode", [ACK, UNACK])
-    names = ("outbox/file.bin", "inbox/copy.bin")
+    # plain relative names, and names with a ".." component (interpreting those is the filestore's business)
+    names = ctx.pick("names", [("outbox/file.bin", "inbox/copy.bin"), ("outbox/../data/file.bin", "in/../inbox/copy.bin")])
     with Monitor():
         sysm = hsys.System(ctx, w, mode=mode, closure=bool(ctx.choice("closure", 2)), S=ctx.int("S", 0, 64),
                            seg_len=32, max_packet_len=64, src_name=names[0], dst_name=names[1])
@@ -127,6 +131,9 @@ def h_relative_names(ctx):
         done = sysm.run(14)
     if sysm.exceptions:
         name = type(sysm.exceptions[0][1].exc).__name__
+        if name == "HostAccess" or w.host_access:
+            verdict(ctx, w, "relative names")
+            ctx.prop("no_host_file_access", False, lambda: {"sig": f"host access attempted: {name}"})
         if name in ("SourceFileDoesNotExist", "FileNotFoundError"):
             ctx.prop("no_host_file_access", False, lambda: {"sig": f"handler fails without host file: {name}"})
         ctx.end("other", f"C10:{rigs.exc_sig(sysm.exceptions[0][1].exc)}")
